@@ -120,7 +120,13 @@ func c02Laws(args []string) error {
 		ar := sdf.Array2D(a2, num, step)
 		n := 1 + rnd.Intn(7)
 		rc := sdf.RotateCopy2D(a2, n)
-		ru := sdf.RotateUnion2D(a2, n, sdf.Rotate2d(sdf.Tau/float64(n)))
+		// copies evenly round the full circle, or (every other set) on part of an arc: then copy n does not
+		// coincide with copy 0 and the union is exactly copies 0..n-1
+		ra2 := sdf.Tau / float64(n)
+		if i%2 == 1 {
+			ra2 *= u(0.15, 0.9)
+		}
+		ru := sdf.RotateUnion2D(a2, n, sdf.Rotate2d(ra2))
 		for j := 0; j < pts; j++ {
 			p := rp2()
 			fa, fb := a2.Evaluate(p), b2.Evaluate(p)
@@ -156,7 +162,7 @@ func c02Laws(args []string) error {
 			}
 			m = math.Inf(1)
 			for jn := 0; jn < n; jn++ {
-				m = math.Min(m, a2.Evaluate(rot2(-float64(jn)*sec, p)))
+				m = math.Min(m, a2.Evaluate(rot2(-float64(jn)*ra2, p)))
 			}
 			reg("RotateUnion2D=min over rotated copies").cmp(ru.Evaluate(p), m, tag)
 		}
@@ -188,7 +194,11 @@ func c02Laws(args []string) error {
 		}
 		ar3 := sdf.Array3D(a3, num3, step3)
 		rc3 := sdf.RotateCopy3D(a3, n)
-		ru3 := sdf.RotateUnion3D(a3, n, sdf.RotateZ(sdf.Tau/float64(n)))
+		ra3 := sdf.Tau / float64(n)
+		if i%2 == 1 {
+			ra3 *= u(0.15, 0.9)
+		}
+		ru3 := sdf.RotateUnion3D(a3, n, sdf.RotateZ(ra3))
 		h := u(1, 6)
 		ex := sdf.Extrude3D(a2, h)
 		tw := u(-7, 7)
@@ -252,7 +262,7 @@ func c02Laws(args []string) error {
 			}
 			m = math.Inf(1)
 			for jn := 0; jn < n; jn++ {
-				r := rot2(-float64(jn)*sec, v2.Vec{X: p.X, Y: p.Y})
+				r := rot2(-float64(jn)*ra3, v2.Vec{X: p.X, Y: p.Y})
 				m = math.Min(m, a3.Evaluate(v3.Vec{X: r.X, Y: r.Y, Z: p.Z}))
 			}
 			reg("RotateUnion3D=min over rotated copies").cmp(ru3.Evaluate(p), m, tag)
